@@ -83,6 +83,7 @@ pub fn run(ctx: &mut Ctx) {
     ctx.run_suite(&super::c02h3::H3TunnelSuite);
     ctx.run_suite(&super::c02bp::BackPressureSuite);
     ctx.run_suite(&super::c02sess::TunnelEndsSuite);
+    ctx.run_suite(&super::c02tick::TickSuite);
     ctx.assume("scripted endpoints are cancel-safe like real sockets (a cancelled read or wait loses nothing) and keep answering EOF after EOF");
     ctx.assume("this check covers the pipe level (pipe.rs); the HTTP/2 window credit of the real codec halves is exercised by C16/C17 sessions, HTTP/3 only through the full stack");
 }
@@ -94,6 +95,7 @@ pub fn replay(ctx: &mut Ctx, suite: &str, case: &Value) -> bool {
         "h3-tunnel-stream" => ctx.replay_suite(&super::c02h3::H3TunnelSuite, case),
         "bidirectional-back-pressure" => ctx.replay_suite(&super::c02bp::BackPressureSuite, case),
         "session-tunnel-ends" => ctx.replay_suite(&super::c02sess::TunnelEndsSuite, case),
+        "session-stall-across-idle-tick" => ctx.replay_suite(&super::c02tick::TickSuite, case),
         _ => false,
     }
 }
